@@ -22,7 +22,7 @@ func TestC05IdentifierSweep(t *testing.T) {
 		// without a usable seed the identifier is a fresh UUID by design: only then is it not reproducible
 		usable := false
 		for _, sd := range seeds {
-			if sd != "auto" && sd != "node" && strings.ContainsAny(sd, "abcdefghijklmnopqrstuvwxyzABCDEFGHIJKLMNOPQRSTUVWXYZ0123456789") {
+			if sd != "auto" && sd != "node" && utf8.ValidString(sd) && strings.ContainsAny(sd, "abcdefghijklmnopqrstuvwxyzABCDEFGHIJKLMNOPQRSTUVWXYZ0123456789") {
 				usable = true
 			}
 		}
